@@ -1117,7 +1117,7 @@ impl<'w, 'i, W: Write> ContentSerializer<'w, 'i, W> {
 impl<'w, 'i, W: Write> ContentSerializer<'w, 'i, W> {
 //@extract content::ContentSerializer::serialize_tuple | src/se/content.rs :: impl<'w, 'i, W: Write> Serializer for ContentSerializer<'w, 'i, W> :: fn serialize_tuple | serves=C13,C19 features=serialize
 //@rewrite Result<Self::SerializeTuple, Self::Error> ==> Result<Seq<'w, 'i, W>, SeError>
-    fn serialize_tuple(self, len: usize) -> (r: Result<Seq<'w, 'i, W>, SeError>)
+    pub fn serialize_tuple(self, len: usize) -> (r: Result<Seq<'w, 'i, W>, SeError>)
         requires self.ok()
         ensures r matches Ok(q) && q.last is SensitiveNothing && q.ser == self
     {
@@ -1126,7 +1126,7 @@ impl<'w, 'i, W: Write> ContentSerializer<'w, 'i, W> {
 //@end
 //@extract content::ContentSerializer::serialize_tuple_struct | src/se/content.rs :: impl<'w, 'i, W: Write> Serializer for ContentSerializer<'w, 'i, W> :: fn serialize_tuple_struct | serves=C13,C19 features=serialize
 //@rewrite Result<Self::SerializeTupleStruct, Self::Error> ==> Result<Seq<'w, 'i, W>, SeError>
-    fn serialize_tuple_struct(
+    pub fn serialize_tuple_struct(
         self,
         _name: &'static str,
         len: usize,
@@ -1139,7 +1139,7 @@ impl<'w, 'i, W: Write> ContentSerializer<'w, 'i, W> {
 //@end
 //@extract content::ContentSerializer::serialize_struct_variant | src/se/content.rs :: impl<'w, 'i, W: Write> Serializer for ContentSerializer<'w, 'i, W> :: fn serialize_struct_variant | serves=C13 features=serialize n15=1
 //@rewrite Result<Self::SerializeStructVariant, Self::Error> ==> Result<Struct<'w, 'i, W>, SeError>
-    fn serialize_struct_variant(
+    pub fn serialize_struct_variant(
         self,
         name: &'static str,
         _variant_index: u32,
@@ -1172,7 +1172,7 @@ impl<'w, 'i, W: Write> ContentSerializer<'w, 'i, W> {
 impl<'w, 'k, W: Write> ElementSerializer<'w, 'k, W> {
 //@extract element::ElementSerializer::serialize_tuple | src/se/element.rs :: impl<'w, 'k, W: Write> Serializer for ElementSerializer<'w, 'k, W> :: fn serialize_tuple | serves=C13 features=serialize
 //@rewrite Result<Self::SerializeTuple, Self::Error> ==> Result<Self, SeError>
-    fn serialize_tuple(self, len: usize) -> (r: Result<Self, SeError>)
+    pub fn serialize_tuple(self, len: usize) -> (r: Result<Self, SeError>)
         requires self.ok()
         ensures r matches Ok(q) && q == self
     {
@@ -1181,7 +1181,7 @@ impl<'w, 'k, W: Write> ElementSerializer<'w, 'k, W> {
 //@end
 //@extract element::ElementSerializer::serialize_tuple_struct | src/se/element.rs :: impl<'w, 'k, W: Write> Serializer for ElementSerializer<'w, 'k, W> :: fn serialize_tuple_struct | serves=C13 features=serialize
 //@rewrite Result<Self::SerializeTupleStruct, Self::Error> ==> Result<Self, SeError>
-    fn serialize_tuple_struct(
+    pub fn serialize_tuple_struct(
         self,
         _name: &'static str,
         len: usize,
@@ -1196,7 +1196,7 @@ impl<'w, 'k, W: Write> ElementSerializer<'w, 'k, W> {
 impl<'w, W: Write> SimpleTypeSerializer<&'w mut W> {
 //@extract simple_type::SimpleTypeSerializer::serialize_tuple | src/se/simple_type.rs :: impl<W: Write> Serializer for SimpleTypeSerializer<W> :: fn serialize_tuple | serves=C13 features=serialize
 //@rewrite Result<Self::SerializeTuple, Self::Error> ==> Result<SimpleSeq<&'w mut W>, SeError>
-    fn serialize_tuple(self, _len: usize) -> (r: Result<SimpleSeq<&'w mut W>, SeError>)
+    pub fn serialize_tuple(self, _len: usize) -> (r: Result<SimpleSeq<&'w mut W>, SeError>)
         ensures r matches Ok(q) && q.target == self.target && q.level == self.level && q.is_empty
             && (*q.writer).out() == (*old(self.writer)).out() && *final(q.writer) == *final(self.writer),
     {
@@ -1205,7 +1205,7 @@ impl<'w, W: Write> SimpleTypeSerializer<&'w mut W> {
 //@end
 //@extract simple_type::SimpleTypeSerializer::serialize_tuple_struct | src/se/simple_type.rs :: impl<W: Write> Serializer for SimpleTypeSerializer<W> :: fn serialize_tuple_struct | serves=C13 features=serialize
 //@rewrite Result<Self::SerializeTupleStruct, Self::Error> ==> Result<SimpleSeq<&'w mut W>, SeError>
-    fn serialize_tuple_struct(
+    pub fn serialize_tuple_struct(
         self,
         _name: &'static str,
         _len: usize,
@@ -1222,7 +1222,7 @@ impl<'w, 'i, W: Write> ContentSerializer<'w, 'i, W> {
 //@rewrite Result<Self::SerializeTupleVariant, Self::Error> ==> Result<Tuple<'w, 'i, W>, SeError>
 //@rewrite .map(Tuple::Text) ==> .map(|q__: SimpleSeq<&'w mut W>| Tuple::Text(q__))
 //@rewrite .map(Tuple::Element) ==> .map(|q__: ElementSerializer<'w, 'i, W>| Tuple::Element(q__))
-    fn serialize_tuple_variant(
+    pub fn serialize_tuple_variant(
         self,
         name: &'static str,
         _variant_index: u32,
